@@ -465,7 +465,10 @@ def rule_r3(prog, res) -> None:
 def rule_r4(prog, res) -> None:
     """patch metadata are written only after having been computed from the fully read data file"""
     Patch = prog.find_class("Patch")
-    init = Patch.methods["__init__"]
+    from ..inline import inlined
+
+    # private helpers of the module (e.g. an extracted "initialise from the data file" method) are expanded in place
+    init = inlined(prog, Patch.methods["__init__"], keep={"read_patch_data", "compute", "to_file", "from_file", "from_bytes"})
     res.touch(init)
     cfg = cfg_of(init.node)
     S = summaries(prog)
